@@ -766,6 +766,7 @@ fn tags_of(r: &Run) -> Vec<String> {
         }
     }
     t.extend(json::crash_tags(ps));
+    t.extend(json::size_tags(ps));
     if !wf_text(ps) {
         t.push("not-wf".into());
     }
@@ -1028,6 +1029,13 @@ impl Engine for Text {
                 Err(e) => eprintln!("generator panic (procx): {e}"),
             }
         }
+        // processor path, deep: a 300 … 1500-link frame-pointer chain on the crashing thread's stack
+        for _ in 0..(if tier == Tier::Quick { 3 } else { 12 }) {
+            match catch(|| json::gen_procx_deep(&mut *rng)) {
+                Ok(st) => emit(format!("text {}", json::sx_line(&st))),
+                Err(e) => eprintln!("generator panic (procx deep): {e}"),
+            }
+        }
         for name in TESTDATA {
             for opt in [0u64, 2] {
                 emit(format!("text file {} n{opt}", json::sx_line(&[json::s(name)])));
@@ -1123,7 +1131,7 @@ impl Text {
             tags.push(format!("source:process_minidump({kind})"));
             let extra: Vec<String> = tags
                 .iter()
-                .filter(|t| t.starts_with("frame:") || t.starts_with("uptime:") || t.ends_with("-streams") || *t == "inline-frames"
+                .filter(|t| t.starts_with("frame:") || t.starts_with("size:") || t.starts_with("uptime:") || t.ends_with("-streams") || *t == "inline-frames"
                     || *t == "dump-thread-skipped" || t.starts_with("bit-flips") || t.starts_with("modules:") || *t == "not-wf")
                 .map(|t| format!("processor-path/{t}"))
                 .collect();
@@ -1151,6 +1159,7 @@ impl Text {
         if budget == 0 {
             return case.to_string();
         }
+        let clock = json::ShrinkClock::start();
         // the extras recipe first: without it the case is an engine-json recipe
         if items.len() == 18 {
             let mut c = items.clone();
@@ -1165,8 +1174,12 @@ impl Text {
                 if budget == 0 {
                     return render(&items);
                 }
-                for cand in json::candidates(&items, &path) {
+                for e in json::edits(&items, &path) {
+                    if clock.expired() {
+                        return render(&items);
+                    }
                     budget -= 1;
+                    let cand = json::apply_edit(&items, &path, &e);
                     if still_fails(&render(&cand)) {
                         items = cand;
                         progress = true;
